@@ -1031,16 +1031,16 @@ def strictHonest (r : KwRow) : Bool := r.documented || r.strictRejects
 
 /-- known finding (class g): the keywords strict mode silently accepts today. -/
 def silentKeywords : List String :=
-  ["not", "dependentRequired", "uniqueItems", "minProperties", "maxProperties", "contentEncoding", "contentMediaType"]
+  ["contentEncoding", "contentMediaType"]
 
 /-- exactly these rows of the regenerated table break the full statement … -/
 theorem c11_strict_silent : (Gen.keywordTable.filter (fun r => !strictHonest r)).map (·.kw) = silentKeywords := by
   decide
 
-/-- … so it is false on the pinned code (witness: `not`). -/
+/-- … so it is false on the pinned code (witness: `contentEncoding`). -/
 theorem c11_strict_full_false : ¬ c11_strict_full := by
   intro h
-  have := h ⟨"not", false, false⟩ (by decide) rfl
+  have := h ⟨"contentEncoding", false, false⟩ (by decide) rfl
   revert this; decide
 
 /-- e.g. `propertyNames`, which the regenerated table says is rejected: strict conversion of
